@@ -4,7 +4,8 @@
 // simulation, testutil, *_test.go and protobuf-generated *.pb.go / *.pb.gw.go files) and emits finite fact tables:
 //
 //	mapRangeSites   every `range` over an expression whose type is a Go map: file, line, enclosing function, the
-//	                ranged expression and a normalized summary ("shape") of what the loop body does
+//	                ranged expression, a normalized summary ("shape") of what the loop body does, and the loop statement
+//	                itself printed without comments and layout ("body")
 //	goStatements    every `go` statement
 //	wallClockUses   every reference to time.Now / time.Since / time.Until / time.After / time.Tick / time.Sleep / time.NewTimer / time.NewTicker
 //	randUses        every reference to an object of math/rand, math/rand/v2 or crypto/rand
@@ -49,7 +50,7 @@ import (
 )
 
 type site struct {
-	file, fn, expr, shape, keyT, valT string
+	file, fn, expr, shape, keyT, valT, body string
 	line                              int
 }
 
@@ -564,7 +565,7 @@ func main() {
 						m := t.Underlying().(*types.Map)
 						q := func(p *types.Package) string { return p.Name() }
 						sites = append(sites, site{file: rel, fn: fname, expr: nodeStr(s.X), shape: shapeOf(info, fd, s),
-							keyT: types.TypeString(m.Key(), q), valT: types.TypeString(m.Elem(), q), line: pos(s)})
+							keyT: types.TypeString(m.Key(), q), valT: types.TypeString(m.Elem(), q), line: pos(s), body: nodeStr(s)})
 					}
 					if t != nil {
 						if _, ok := t.Underlying().(*types.Chan); ok {
@@ -720,7 +721,7 @@ func main() {
 	b.WriteString("Sources of nondeterminism in consensus code (property C16). Scope: non-test, non-generated files of every package\n")
 	b.WriteString("under x/…, app/… and types/… except client, simulation, testutil. -/\n")
 	b.WriteString("namespace Comdex.Gen.Determinism\n\n")
-	b.WriteString("structure MapRange where\n  file : String\n  line : Nat\n  fn : String\n  expr : String\n  keyT : String\n  valT : String\n  shape : String\n  deriving Repr, DecidableEq\n\n")
+	b.WriteString("structure MapRange where\n  file : String\n  line : Nat\n  fn : String\n  expr : String\n  keyT : String\n  valT : String\n  shape : String\n  body : String\n  deriving Repr, DecidableEq\n\n")
 	b.WriteString("structure Use where\n  file : String\n  line : Nat\n  fn : String\n  what : String\n  deriving Repr, DecidableEq\n\n")
 	fmt.Fprintf(&b, "def scannedPackages : Nat := %d\ndef scannedFiles : Nat := %d\ndef scannedFuncs : Nat := %d\n\n", nPkgs, nFiles, nFuncs)
 	b.WriteString("def mapRangeSites : List MapRange := [\n")
@@ -729,8 +730,8 @@ func main() {
 		if i == len(sites)-1 {
 			sep = ""
 		}
-		fmt.Fprintf(&b, "  { file := %s, line := %d, fn := %s, expr := %s, keyT := %s, valT := %s, shape := %s }%s\n",
-			leanStr(s.file), s.line, leanStr(s.fn), leanStr(s.expr), leanStr(s.keyT), leanStr(s.valT), leanStr(s.shape), sep)
+		fmt.Fprintf(&b, "  { file := %s, line := %d, fn := %s, expr := %s, keyT := %s, valT := %s, shape := %s,\n    body := %s }%s\n",
+			leanStr(s.file), s.line, leanStr(s.fn), leanStr(s.expr), leanStr(s.keyT), leanStr(s.valT), leanStr(s.shape), leanStr(s.body), sep)
 	}
 	b.WriteString("]\n\n")
 	emit := func(name string, us []use) {
@@ -781,7 +782,7 @@ func main() {
 		b.WriteString("]\n\n")
 	}
 	b.WriteString("/-- line-number-free keys used by the obligations in Props/C16.lean -/\n")
-	b.WriteString("def MapRange.key (s : MapRange) : String × String × String := (s.file, s.fn, s.shape)\n")
+	b.WriteString("def MapRange.key (s : MapRange) : String × String × String := (s.file, s.fn, s.shape)\n/-- the loop statement itself (comments and layout removed): a changed loop has a different text -/\ndef MapRange.text (s : MapRange) : String × String := (s.fn, s.body)\n")
 	b.WriteString("def Use.key (u : Use) : String × String × String := (u.file, u.fn, u.what)\n\n")
 	b.WriteString("end Comdex.Gen.Determinism\n")
 	if err := os.MkdirAll(filepath.Dir(*out), 0o755); err != nil {
